@@ -499,6 +499,12 @@ class Visitor:
             # `from package.current_module import Thing as Thing` or
             # `from . import thing as thing`).
             if alias_path != f"{self.current.path}.{alias_name}":
+                if name.name == "*" and self.type_guarded:
+                    # The same wildcard import written twice shares one placeholder:
+                    # a type-guarded one does not take the place of the one that runs.
+                    previous = self.current.members.get(alias_name)
+                    if previous is not None and previous.is_alias and previous.runtime:
+                        continue
                 alias = Alias(
                     alias_name,
                     alias_path,
